@@ -618,7 +618,7 @@ func c11Concurrent(tier string) []fw.Scenario {
 	}
 	for _, cfg := range shareConfigs() {
 		cfg := cfg
-		if cfg.preset == "" && !(cfg.conn.name == "publish" || cfg.conn.name == "replay(1)") {
+		if cfg.preset == "" && !(cfg.conn.name == "publish" || cfg.conn.name == "replay(1)" || (cfg.conn.name == "behavior(0)" && cfg.resetErr && cfg.resetComp)) {
 			continue
 		}
 		for si, set := range shareSets {
@@ -662,6 +662,9 @@ func c11Concurrent(tier string) []fw.Scenario {
 			}
 			// every final state the definition allows: one per order in which the operations can take effect
 			allowed := map[string]string{}
+			// what each subscriber may have received: its trace in SOME order of the operations (judged per
+			// subscriber, because a broadcast reaches the subscribers one after the other)
+			allowedTrace := []map[string]bool{{}, {}}
 			c11Linearizations(p.threads, func(order []sop) {
 				m := p.model()
 				for _, o := range p.pre {
@@ -679,6 +682,9 @@ func c11Concurrent(tier string) []fw.Scenario {
 				k := c11Final(live, subs, got)
 				if _, ok := allowed[k]; !ok {
 					allowed[k] = evString(order)
+				}
+				for i := 0; i < 2; i++ {
+					allowedTrace[i][h.Word(m.trace(i))] = true
 				}
 			})
 			c.Explore(fw.Case{Name: strings.Join(names, " "), Bound: bound, Sample: true, Make: func() fw.Instance {
@@ -745,12 +751,24 @@ func c11Concurrent(tier string) []fw.Scenario {
 								fmt.Sprintf("after all operations finished and a probe value was pushed: %s; no order of the operations gives that, the definition allows: %s", final, strings.Join(al, "; "))))
 						}
 						for i, rec := range im.recs {
-							if rec.MaxInside > 1 {
+							// a recorder that the program subscribes twice stands for two subscriptions: the library
+							// serialises each of them, not the two against each other (the first may still be
+							// delivering while the connector replays to the second)
+							again := resubscribed(p.pre, p.threads[0], p.threads[1], lastOr(p.threads, 2), i)
+							if rec.MaxInside > 1 && !again {
 								out = append(out, fw.V(sig+"/overlap/observer", rec.Overlap))
 							}
 							evs := rec.Events()
-							if resubscribed(p.pre, p.threads[0], p.threads[1], lastOr(p.threads, 2), i) {
+							if again {
 								continue
+							}
+							if !allowedTrace[i][h.Word(evs)] && len(r.Blocked) == 0 && r.Crash == nil && escaped == "" {
+								var al []string
+								for t := range allowedTrace[i] {
+									al = append(al, "["+t+"]")
+								}
+								sort.Strings(al)
+								out = append(out, fw.V(sig+"/subscriber-trace-for-no-order-of-the-operations/"+diffClassAny(evs, allowedTrace[i]), fmt.Sprintf("subscriber %d received [%s] (probe value %d included); the definition gives it one of %s", i, h.Word(evs), c11Probe, strings.Join(al, " "))))
 							}
 							if g := h.GrammarError(evs); g != "" {
 								out = append(out, fw.V(sig+"/grammar/"+grammarClass(evs), g))
@@ -759,13 +777,14 @@ func c11Concurrent(tier string) []fw.Scenario {
 							for _, e := range evs {
 								if e.K == h.N {
 									v := e.V.(int)
+									if v == c11Probe {
+										continue
+									}
 									if v != 0 && v <= last {
 										out = append(out, fw.V(sig+"/order/values", fmt.Sprintf("subscriber %d received [%s]: source order not kept", i, rec.Trace())))
 										break
 									}
-									if v != 0 {
-										last = v
-									}
+									last = v
 								}
 							}
 						}
@@ -775,6 +794,27 @@ func c11Concurrent(tier string) []fw.Scenario {
 		}})
 	}
 	return scns
+}
+
+// diffClassAny names how a trace departs from every allowed one (by length first).
+func diffClassAny(evs []h.Ev, allowed map[string]bool) string {
+	shorter, longer := false, false
+	for t := range allowed {
+		n := len(strings.Fields(t))
+		if len(evs) < n {
+			shorter = true
+		}
+		if len(evs) > n {
+			longer = true
+		}
+	}
+	switch {
+	case shorter && !longer:
+		return "notification-missing"
+	case longer && !shorter:
+		return "notification-extra"
+	}
+	return "differs"
 }
 
 const c11Probe = 9
